@@ -148,8 +148,12 @@ impl<'a, D: Dataset + ?Sized> ExecState<'a, D> {
         graph_matcher: &[Option<ArcTerm>],
         binding: Option<&Binding>,
     ) -> Result<bool, SparqlWrapperError<D::Error>> {
-        self.select(pattern, graph_matcher, binding)
-            .map(|binding| binding.into_iter().next().is_some())
+        // NB: an error met while looking for the first solution is an error, not a solution
+        match self.select(pattern, graph_matcher, binding)?.iter.next() {
+            None => Ok(false),
+            Some(Ok(_)) => Ok(true),
+            Some(Err(err)) => Err(err),
+        }
     }
 
     fn bgp(
